@@ -294,6 +294,53 @@ def oracle_c03(solver):
             continue
         if not same_value(again, val):
             probs.append(f'{name}: stored {val!r}, its definition yields {again!r} on the final stores')
+    if not probs:
+        probs += oracle_c03_returned(solver)
+    return probs
+
+
+def oracle_c03_returned(solver):
+    """the statement on the RETURNED solution (what `Solver.solution()` hands out, as text): read every value back
+    through its own line type and re-evaluate every line against those values; the line must print as it was returned"""
+    from habutax import form as hform, values as hvalues
+    probs = []
+    try:
+        sol = solver.solution()
+    except BaseException as e:  # noqa: BLE001
+        if isinstance(e, (KeyboardInterrupt, SystemExit)):
+            raise
+        return []
+    back = hvalues.ValueStore()
+    texts = {}
+    for sec in sol.sections():
+        for key, text in sol[sec].items():
+            name = f'{sec}.{key}'
+            field = solver._field_map.get(name)
+            if field is None:
+                # option names are lower-cased by configparser: find the line case-insensitively
+                field = next((f for n, f in solver._field_map.items() if n.lower() == name.lower()), None)
+            if field is None:
+                continue
+            try:
+                back[field.name()] = field.from_string(text)
+                texts[field.name()] = text
+            except BaseException as e:  # noqa: BLE001  (C14's business)
+                if isinstance(e, (KeyboardInterrupt, SystemExit)):
+                    raise
+                return []
+    for name, text in texts.items():
+        field = solver._field_map[name]
+        try:
+            again = field.value(hform.FormAccessor(solver._i, field.form()), hform.FormAccessor(back, field.form()))
+            shown = field.to_string(again)
+        except BaseException as e:  # noqa: BLE001
+            if isinstance(e, (KeyboardInterrupt, SystemExit)):
+                raise
+            continue            # a line that needs a value the returned (partial) solution does not contain
+        if shown != text:
+            probs.append(f'{name}: the returned solution says {text!r}, but its definition yields {shown!r} on the values of the same returned solution')
+            if len(probs) >= 3:
+                break
     return probs
 
 
@@ -487,9 +534,18 @@ def run_C05(ctx):
                 bad.append(('toy', c.protocol(), f'result depends on the attempt order / request order: {str(base)[:120]} vs {str(sig)[:120]}'))
                 break
         checked += 1
-    # shipped forms
+    # shipped forms; plus requests that do NOT start from Form 1040 (forms reached only through other forms' lines)
+    import scenarios as sc
+    odd = []
+    for year in (2021, 2022, 2023):
+        for forms in (['8959', 'nc_d-400'], ['nc_d-400', '1040_sb'], ['1040_s1', '8959'], ['1040_sa', 'nc_d-400', '8959']):
+            sd = f'{ctx.seed}/c05/forms/{year}/{"-".join(forms)}'
+            pol, kind = sc.gen_policy(sd, year, kind='plain')
+            r = sc.run(year, forms, pol)
+            r['kind'], r['scenario_seed'] = kind, sd
+            odd.append(r)
     nreal = 0
-    for r in runs[:ctx.n(25, 300)]:
+    for r in odd + runs[:ctx.n(25, 300)]:
         if r['exception'] is not None and not isinstance(r['exception'], (NotImplementedError, TypeError, AssertionError)):
             continue
         rng = random.Random(f'{ctx.seed}/c05-real/{r["scenario_seed"]}')
@@ -523,8 +579,12 @@ def run_C05(ctx):
         'samples': [{'year': r['year'], 'forms': r['forms'], 'inputs': len(sc_inputs(r))} for r in runs[:2]]}
     for kind, rep, p in bad:
         key = 'independence:' + (p.split(':')[0] if kind == 'scenario' else 'toy')
-        if 'KeyError' in p:
-            key = 'independence:form-lookup-KeyError'
+        if 'KeyError' in p and kind == 'scenario':
+            # Field.form(name) on a form that is not loaded: identified by WHAT was varied, the year and the request, so that
+            # the recorded finding (hypothetical schedules, Form 8959 requested without Form 1040) hides nothing else
+            vk = 'schedule' if str(rep.get('variant', '')).startswith('schedule') else str(rep.get('variant', p.split(':')[0]))
+            ctx.report(f"independence:form-lookup-KeyError:{vk}:{rep.get('year')}:{'+'.join(rep.get('forms', []))}", p, {'kind': kind, 'case': rep})
+            continue
         ctx.report(key + ':' + p[:50], p, {'kind': kind, 'case': rep})
     finish_tie(ctx, broken, dis, found=bool(bad))
 
@@ -676,6 +736,18 @@ def oracle_c11():
                     probs.append((f'{type(inp).__name__}:{t!r}', f'{type(inp).__name__}: {t!r} gives {type(v).__name__}, declared {ty.__name__}'))
                 if isinstance(v, float) and not math.isfinite(v):
                     probs.append((f'{type(inp).__name__}:{t!r}', f'{type(inp).__name__}: {t!r} gives the non-finite number {v!r}'))
+                # "text that does not denote a finite number for a numeric input is never turned into a value": the
+                # reference for "denotes" is the language's own number syntax, independent of the input class
+                if isinstance(inp, (hi.FloatInput, hi.IntegerInput)) and t.strip():
+                    try:
+                        ref = float(t.strip()) if isinstance(inp, hi.FloatInput) else int(t.strip())
+                        denotes = math.isfinite(ref) if isinstance(ref, float) else True
+                    except ValueError:
+                        denotes, ref = False, None
+                    if not denotes:
+                        probs.append((f'{type(inp).__name__}:{t!r}', f'{type(inp).__name__}: {t!r} is not a number, yet it reached a line as {v!r}'))
+                    elif ref != v:
+                        probs.append((f'{type(inp).__name__}:{t!r}', f'{type(inp).__name__}: {t!r} denotes {ref!r}, yet it reached a line as {v!r}'))
         # absent
         cfg = configparser.ConfigParser(interpolation=None)
         cfg.read_dict({'f': {'other': '1'}, 'DEFAULT': {}})
@@ -1670,6 +1742,20 @@ def run_C16(ctx):
                 r = sc.run(year, ['1040', 'nc_d-400'], pol)
                 r['kind'], r['scenario_seed'], r['policy'] = 'nc-children', sd, pol
                 runs.append(r)
+    # NC returns with N.C. tax withheld on every kind of payer form, jointly owned where the form allows it
+    for year in (2021, 2022, 2023):
+        for st in ('MarriedFilingJointly', 'Single'):
+            sd = f'{ctx.seed}/c16/ncwh/{year}/{st}'
+            pol, kind = sc.gen_policy(sd, year, kind='plain')
+            own = 'both' if st == 'MarriedFilingJointly' else 'taxpayer'
+            pol.fixed.update({'1040.filing_status': st, '1040.number_w-2': '1', '1040.number_1098': '1', '1040.number_1099-int': '1',
+                              '1040.number_1099-div': '1', '1040.number_1099-g': '1', '1040.number_1099-r': '1',
+                              'box_15': 'NC', 'box_15_1': 'NC', 'box_14_1': 'NC', 'box_10a_1': 'NC', 'box_14_1_state': 'NC',
+                              '1099-int:0.belongs_to': own, '1099-div:0.belongs_to': own, '1099-g:0.belongs_to': own,
+                              'box_17': '812.00', 'box_17_1': '31.00', 'box_16_1': '44.00', 'box_11_1': '25.00'})
+            r = sc.run(year, ['1040', 'nc_d-400'], pol)
+            r['kind'], r['scenario_seed'], r['policy'] = 'nc-withholding', sd, pol
+            runs.append(r)
     bad, pairs, solved = [], 0, 0
     for i, r in enumerate(runs):
         if r['exception'] is None and r['ok']:
